@@ -13,22 +13,31 @@ get_socket / ReliableSender, over
     non-final frame it sends, so that the frame sends of two pool jobs interleave exactly as the trace says (at most
     max_workers jobs are under way at a time).  concurrent.futures.wait runs the jobs the trace picks (the loop may
     not proceed past wait() otherwise);
-  * a fake shm client per host with the conflict-on-existing-key rule of cascade.shm (allocate / get / purge);
-  * a fake clock (time.time_ns).
+  * the REAL cascade.shm.client over a fake datagram socket and a fake, single-threaded shm server per host that the
+    trace can make slow (ds_shm.py: conflict on an existing key, wait on an unclosed one, reader ids, delayed purge);
+    a stepped job can also be made to pause after every shm request it sends;
+  * a fake clock (time.time_ns; time.sleep and waiting for a datagram let it run).
 
 Nothing in the repository is modified; attributes of zmq / time / concurrent.futures / logging.config /
-cascade.shm.client / cascade.shm.api (and every name in a loaded cascade.* module bound to one of the replaced
-objects) are swapped for the duration of one case and restored afterwards."""
+socket / multiprocessing.shared_memory / multiprocessing.resource_tracker / cascade.shm.api (and every name in a
+loaded cascade.* module bound to one of the replaced objects) are swapped for the duration of one case and restored afterwards."""
 import collections
 import concurrent.futures
 import contextlib
 import logging
 import logging.config
+import multiprocessing.resource_tracker
+import multiprocessing.shared_memory
+import os
 import pickle
+import socket as socket_mod
 import sys
 import threading
 import time
 from concurrent.futures import Future
+
+import ds_shm
+from ds_shm import ShmHang
 
 SNDMORE = 2   # zmq.SNDMORE
 PULL = 7      # zmq.PULL
@@ -45,6 +54,10 @@ class Clock:
 
 # ----------------------------------------------------------------------------- transport
 _CUR = None   # the cluster of the case being run
+
+
+def current_cluster():
+    return _CUR
 
 
 _NSOCK = [0]
@@ -83,7 +96,7 @@ class Push:
         else:
             job = getattr(threading.current_thread(), "_verif_job", None)
             if job is not None:
-                job.yield_point()
+                job.yield_point("frame")
 
     def send_multipart(self, msg_parts, flags=0, *a, **k):
         parts = list(msg_parts)
@@ -173,8 +186,10 @@ class _Co:
         self.fn, self.args, self.kwargs = fn, args, kwargs
         self.resume = threading.Semaphore(0)
         self.yielded = threading.Semaphore(0)
-        self.stepping = True
-        self.finished = False
+        self.stepping = True       # False: run to the end; True: pause after every non-final frame sent; "all": also after every
+        self.finished = False      # shm request sent and in every time.sleep
+        self.asleep = False        # paused inside time.sleep because it cannot get on before another job does
+        self.pool = None
         self.result, self.exc = None, None
         self.thread = threading.Thread(target=self._main, daemon=True, name="verif-pool-job")
         self.thread._verif_job = self
@@ -199,8 +214,20 @@ class _Co:
     def still_running(self, timeout):
         return not self.yielded.acquire(timeout=timeout)
 
-    def yield_point(self):
-        if self.stepping:
+    def yield_point(self, kind="frame"):
+        if self.stepping == "all" or (self.stepping and kind == "frame"):
+            self.yielded.release()
+            self.resume.acquire()
+
+    def sleep_point(self):
+        """time.sleep on this thread: the code waits for something another thread has to do (the shm server said `wait`).
+        Stepped finely this is a pause like any other; otherwise, while another job of the pool is under way (paused), the
+        scheduler is told so that it lets that job get on first -- under a real pool it would run meanwhile"""
+        if self.stepping == "all":
+            self.yielded.release()
+            self.resume.acquire()
+        elif self.pool is not None and any(k for k in self.pool.under_way() if self.pool.jobs[k][5] is not self):
+            self.asleep = True
             self.yielded.release()
             self.resume.acquire()
 
@@ -224,13 +251,25 @@ class ManualExecutor:
     def pending(self):
         return [i for i, j in enumerate(self.jobs) if not j[3]]
 
+    def hung(self):
+        return [i for i, j in enumerate(self.jobs) if j[3] == "hung"]
+
+    def _co(self, i):
+        fut, fn, args, ran, kw, co = self.jobs[i]
+        co = self.jobs[i][5] = _Co(fn, args, kw, ("job", self.host, i))
+        co.pool = self
+        return co
+
     def under_way(self):
         return [i for i, j in enumerate(self.jobs) if not j[3] and j[5] is not None]
 
     def _finish(self, i, result, exc):
         j = self.jobs[i]
-        j[3] = True
         j[5] = None
+        if isinstance(exc, ShmHang):   # the thread is blocked for ever: the future never completes
+            j[3] = "hung"
+            return
+        j[3] = True
         fut = j[0]
         fut.set_running_or_notify_cancel()
         if exc is not None:
@@ -245,7 +284,7 @@ class ManualExecutor:
         if co is None and self.under_way():
             # another job is under way on its own thread (it may hold a lock this one needs): this one gets a thread too,
             # so that the scheduler notices when it cannot get on
-            co = self.jobs[i][5] = _Co(fn, args, kw, ("job", self.host, i))
+            co = self._co(i)
         if co is None:
             tag = ("job", self.host, i)
             prev, self.cluster.sync_tag = self.cluster.sync_tag, tag
@@ -261,29 +300,45 @@ class ManualExecutor:
         self._advance(i, False)
         return True
 
-    def step(self, i):
-        """job i runs up to its next pause; True when it has finished"""
+    def step(self, i, fine=False):
+        """job i runs up to its next pause (fine: shm requests and sleeps are pauses too); True when it has finished"""
         fut, fn, args, ran, kw, co = self.jobs[i]
         assert not ran
         if co is None:
             assert len(self.under_way()) < self.max_workers, "no free worker"
-            co = self.jobs[i][5] = _Co(fn, args, kw, ("job", self.host, i))
-        return self._advance(i, True)
+            co = self._co(i)
+        return self._advance(i, "all" if fine else True)
 
     def _advance(self, i, stepping):
         co = self.jobs[i][5]
         ok = co.advance(stepping, timeout=0.2)
-        if not ok:
-            # blocked (e.g. on a lock held by another paused job): let the others finish, then it must get on
+
+        def others_finish():
             for k in self.under_way():
                 if k != i:
-                    ok2 = self.jobs[k][5].advance(False, timeout=HANG_S)
-                    if not ok2:
-                        raise JobHang(f"pool job {k} does not finish")
                     o = self.jobs[k][5]
+                    while True:
+                        if not o.advance(False, timeout=HANG_S):
+                            raise JobHang(f"pool job {k} does not finish")
+                        if o.finished:
+                            break
+                        o.asleep = False    # it slept while this one is paused: both wait; the clock runs, it asks again
                     self._finish(k, o.result, o.exc)
                     self.cluster.finished_aside.append((self.host, k))
+        if not ok:
+            # blocked (e.g. on a lock held by another paused job): let the others finish, then it must get on
+            others_finish()
             if co.still_running(HANG_S):
+                raise JobHang(f"pool job {i} does not get on")
+        guard = 0
+        while co.asleep and not co.finished:
+            # it waits (time.sleep) for what another, paused job has to do: that one gets on first
+            co.asleep = False
+            guard += 1
+            if guard > 5000:
+                raise JobHang(f"pool job {i} sleeps for ever")
+            others_finish()
+            if not co.advance(stepping, timeout=HANG_S):
                 raise JobHang(f"pool job {i} does not get on")
         if co.finished:
             self._finish(i, co.result, co.exc)
@@ -300,59 +355,7 @@ class ManualExecutor:
         pass
 
 
-# ----------------------------------------------------------------------------- shm
-class Buf:
-    def __init__(self, shm, key, data, deser_fun, create):
-        self.shm, self.key, self.data, self.deser_fun, self.create = shm, key, data, deser_fun, create
-        self.l = len(data)
-        self.readonly = not create
-        self.open = True
-        shm.open_bufs.append(self)
-
-    def view(self):
-        if not self.open:
-            raise ValueError("shm already closed!")
-        mv = memoryview(self.data)
-        return mv if self.create else mv.toreadonly()
-
-    def close(self):
-        if self.open:
-            self.open = False
-            self.shm.open_bufs.remove(self)
-            if self.create:
-                self.shm.data[self.key] = (bytes(self.data), self.deser_fun)
-                self.shm.created.discard(self.key)
-
-
-class HostShm:
-    """cascade.shm.Manager as far as the data server can tell: add on an existing key -> conflict,
-    get of a missing key -> error, purge of a missing key -> nothing"""
-
-    def __init__(self, cluster, host):
-        self.cluster, self.host = cluster, host
-        self.data = {}       # key -> (bytes, deser_fun)
-        self.created = set()  # allocated, not yet closed
-        self.open_bufs = []
-        self.alloc_count = {}
-
-    def allocate(self, key, l, deser_fun, timeout_sec=60.0):
-        if key in self.data or key in self.created:
-            raise self.cluster.ConflictError()
-        self.created.add(key)
-        self.alloc_count[key] = self.alloc_count.get(key, 0) + 1
-        return Buf(self, key, bytearray(l), deser_fun, True)
-
-    def get(self, key, timeout_sec=60.0):
-        if key not in self.data:
-            raise ValueError(f"KeyError({key!r})")
-        b, d = self.data[key]
-        return Buf(self, key, bytearray(b), d, False)
-
-    def purge(self, key):
-        self.cluster.on_purge(self.host, key)
-        self.data.pop(key, None)
-
-
+# ----------------------------------------------------------------------------- swapping names
 _BINDINGS = {}
 
 
@@ -383,6 +386,14 @@ class Cluster:
         self.comms, self.dsm, self.shm_api, self.shm_client, self.zmq = comms, dsm, shm_api, shm_client, zmq
         self.ConflictError = shm_client.ConflictError
         self.clock = Clock(start_ns)
+        # the shm side (ds_shm.py)
+        self.segments = {}         # name -> bytearray: the shared-memory segments of all hosts (names carry the host)
+        self.open_handles = []     # open mappings
+        self.shm_server = {}       # host -> ShmServer
+        self.shm_lost_answers = []  # answers sent to a socket that was closed meanwhile
+        self.shm_timeouts = []     # (host, timeout): a recv that gave up
+        self.shm_hangs = []        # (host, what): a thread waits for ever
+        self.shm_sleeps = 0
         self.net = []            # [(address, [frames])] in flight
         self.net_tags = []       # parallel to net: who sent the frames of the message
         self.events = {}         # host index -> [message] callbacks to maddress, in order
@@ -437,8 +448,21 @@ class Cluster:
             self.net.append((address, frames))
             self.net_tags.append(list(tags))
 
-    def cur_shm(self):
-        return self.shm[self.current]
+    def cur_host(self):
+        """the host whose code is running on this thread"""
+        t = getattr(threading.current_thread(), "_verif_tag", None)
+        if t is not None and t[0] == "job":
+            return t[1]
+        if self.sync_tag is not None and self.sync_tag[0] == "job":
+            return self.sync_tag[1]
+        return self.current
+
+    def advance_to(self, ns):
+        """time passes (a tick of the trace, a client waiting for its answer, a sleep): the shm servers work meanwhile"""
+        if ns > self.clock.ns:
+            self.clock.ns = ns
+        for srv in self.shm_server.values():
+            srv.work()
 
     def on_purge(self, host, key):
         # the property: a purge waits for reads (and stores) in progress on that dataset
@@ -457,17 +481,24 @@ class Cluster:
         fs = list(fs)
         pool = self.pool[self.current]
 
-        def notdone():
-            return [f for f in fs if not f.done()]
+        def live():
+            """the unfinished futures that can still finish; a wait that only a job blocked for ever could end never returns"""
+            hung = {pool.jobs[k][0] for k in pool.hung()}
+            nd = [f for f in fs if not f.done()]
+            lv = [f for f in nd if f not in hung]
+            if nd and not lv and (return_when != "FIRST_COMPLETED" or len(nd) == len(fs)):
+                self.shm_hangs.append((self.current, "the loop waits in wait() for a job that is blocked for ever"))
+                raise ShmHang("wait() blocks for ever")
+            return lv
         if return_when == "FIRST_COMPLETED":
-            nd = notdone()
-            if nd and len(nd) == len(fs):
+            nd = live()
+            if nd and not any(f.done() for f in fs):
                 p = self.picks.pop(0) if self.picks else 0
                 pool.run(pool.index_of(nd[p % len(nd)]))
                 self.used_picks.append(p)
         else:
             while True:
-                nd = notdone()
+                nd = live()
                 if not nd:
                     break
                 p = self.picks.pop(0) if self.picks else 0
@@ -477,15 +508,6 @@ class Cluster:
         return collections.namedtuple("DoneAndNotDoneFutures", "done not_done")(done, set(fs) - done)
 
     # --- the seams
-    def _shm_allocate(self, key, l, deser_fun, timeout_sec=60.0):
-        return self.cur_shm().allocate(key, l, deser_fun)
-
-    def _shm_get(self, key, timeout_sec=60.0):
-        return self.cur_shm().get(key)
-
-    def _shm_purge(self, key, *a, **k):
-        return self.cur_shm().purge(key)
-
     @contextlib.contextmanager
     def patched(self):
         global _CUR
@@ -494,7 +516,11 @@ class Cluster:
             (zmq, "Context", Context), (zmq, "Poller", Poller),
             (time, "time_ns", self.clock.time_ns),
             (concurrent.futures, "wait", self._wait), (concurrent.futures, "ThreadPoolExecutor", ManualExecutor),
-            (shm_client, "allocate", self._shm_allocate), (shm_client, "get", self._shm_get), (shm_client, "purge", self._shm_purge),
+            (socket_mod, "socket", ds_shm.DgramSocket), (time, "sleep", ds_shm.fake_sleep),
+            *[(time, n, ds_shm.fake_clock(n)) for n in ds_shm.REAL_CLOCKS],
+            (multiprocessing.shared_memory, "SharedMemory", ds_shm.FakeSharedMemory),
+            (multiprocessing.resource_tracker, "unregister", lambda *a, **k: None),
+            (multiprocessing.resource_tracker, "register", lambda *a, **k: None),
             (shm_api, "publish_client_port", lambda port: None),
             (logging.config, "dictConfig", lambda cfg: None),
         ]
@@ -508,6 +534,8 @@ class Cluster:
                 saved.append((m, attr, old))
                 setattr(m, attr, new)
         prev_cur, _CUR = _CUR, self
+        prev_port = os.environ.get(shm_api.client_port_envvar)
+        os.environ[shm_api.client_port_envvar] = "12345"
         prev = logging.root.manager.disable
         logging.disable(logging.CRITICAL)
         try:
@@ -524,6 +552,10 @@ class Cluster:
             self.current = None
             logging.disable(prev)
             _CUR = prev_cur
+            if prev_port is None:
+                os.environ.pop(shm_api.client_port_envvar, None)
+            else:
+                os.environ[shm_api.client_port_envvar] = prev_port
             for mod, name, old in reversed(saved):
                 setattr(mod, name, old)
 
@@ -534,7 +566,8 @@ class Cluster:
         for i in range(1, self.nhosts + 1):
             self.events[i] = []
             self.event_ctx[i] = []
-            self.shm[i] = HostShm(self, i)
+            self.shm_server[i] = ds_shm.ShmServer(self, i)
+            self.shm[i] = ds_shm.HostView(self, i, self.shm_server[i])
             self.current = i
             npools = len(self.created_pools)
             srv = self.dsm.DataServer(f"m{i}", f"d{i}", f"h{i}", 12345, {"version": 1})
@@ -558,10 +591,14 @@ class Cluster:
     def publish(self, host, ds, value, deser_fun):
         """what a worker's Memory.handle does with a published output"""
         self.current = host
-        buf = self.shm[host].allocate(self.dsm.ds2shmid(ds), len(value), deser_fun)
-        buf.view()[:len(value)] = value
-        buf.close()
-        self.current = None
+        self.sync_tag = ("worker", host)
+        try:
+            buf = self.shm_client.allocate(self.dsm.ds2shmid(ds), len(value), deser_fun)   # the real client, as Memory.handle
+            buf.view()[:len(value)] = value
+            buf.close()
+        finally:
+            self.current = None
+            self.sync_tag = None
 
     def command(self, cmd):
         """Bridge.transmit / Bridge.fetch: the controller's ReliableSender frames the command"""
@@ -601,10 +638,10 @@ class Cluster:
         finally:
             self.current = None
 
-    def step_job(self, host, k):
+    def step_job(self, host, k, fine=False):
         self.current = host
         try:
-            return self.pool[host].step(k)
+            return self.pool[host].step(k, fine)
         finally:
             self.current = None
 
@@ -641,6 +678,8 @@ class Cluster:
             srv.recv_loop()
         except Exception as e:  # the process would die here
             self.crashed[host] = type(e).__name__ + ": " + str(e)[:200]
+        except ShmHang as e:    # the loop never comes back: the host is wedged
+            self.crashed[host] = "blocked for ever: " + str(e)[:200]
         finally:
             del lst.recv_messages
             self.current = None
